@@ -195,6 +195,31 @@ def let_names_contract(chk):
            ok, "structural", "proved", detail=str(issued), replay=None if ok else _replay_let_names())
 
 
+def let_bound_targets(chk):
+    """User variables keep their values: an assignment to a let-bound name whose value needs statements (the compiler renames the
+    value's result temporary - a variable or a function definition - to the target) stores into the let variable; the variable of the
+    same name outside the let is untouched.  Programs run by CPython against the alpha-renamed reference (hv/props/_scopes.py)."""
+    from hv.props import _scopes as sc
+    from hv.props.c06 import BINDS
+    from hv.props._scopes import BIND, LOG, SETV
+    bad = None
+    n = 0
+    for how in BINDS:
+        for levels in ([("let", ("x",))], [("let", ("x",)), ("let", ("y",))], [("fn",), ("let", ("x",))], [("let", ("x",)), ("fn",)]):
+            for wrap in (False, True):
+                for prog in sc.spine_programs(levels, [(SETV("x"),)], [(BIND(how, "x"), LOG("x"))], [(BIND(how, "x"), LOG("x"), LOG("y"))],
+                                              wrap_function=wrap):
+                    n += 1
+                    ok, hs, ps, h, p = sc.compare(prog)
+                    chk.case(("let-bound-target", how, n))
+                    if not ok and bad is None:
+                        bad = (how, hs, repr(h), repr(p))
+    chk.ob("keep/assignment to a let-bound name with a value that needs statements: stored in the let variable, the outer variable of the "
+           "same name keeps its value", bad is None and n > 50, "cpython-oracle", "exhaustive_finite",
+           detail=f"{n} programs" if bad is None else f"{bad[0]}: {bad[1]}\n  Hy run : {bad[2]}\n  ref run: {bad[3]}",
+           replay=None if bad is None else {"confirmed": True, "input": bad[1], "observed": bad[2], "expected": bad[3]})
+
+
 def run(chk):
     names = [n for n, e in catalog.ENTRIES.items() if catalog.supported(e) and n not in SKIP]
     chk.fn(*sorted({e.fn for e in catalog.ENTRIES.values() if e.fn}), "hy/compiler.py::HyASTCompiler.get_anon_var",
@@ -205,6 +230,7 @@ def run(chk):
     frame_check(chk)
     anon_var_contract(chk)
     let_names_contract(chk)
+    let_bound_targets(chk)
     # "so user variables keep their values across compiled constructs": semantic clause, with let-bound variables
     # (whose Python names are _hy_-prefixed, like the compiler's temporaries) as operands of every sequential construct
     from hv import rules, uservars
